@@ -585,6 +585,15 @@ def exec_for_invariant(engine, ctx, st: ast.For, env: Env, it, inv):
         raise EngineLimit("invariant loop over %r" % (it,))
     label = "%s/loop%d" % (short(ctx.func), loop_ordinal(env, st))
     modified = [n for n in assigned_names(st.body) if n in env.vars]
+    has_yield = any(isinstance(n, (ast.Yield, ast.YieldFrom)) for b in st.body for n in ast.walk(b))
+    if has_yield and ctx.inline_depth == 0:
+        # yields inside the loop: the sequence of yielded values becomes symbolic (count + per-component arrays)
+        if getattr(ctx, "ysym", None) is None:
+            ctx.ysym = V.YieldSeq(ctx)
+            for v in ctx.yielded:
+                ctx.ysym.push(v)
+    elif has_yield:
+        raise EngineLimit("yield inside a loop of an inlined generator")
 
     def inv_clauses(i):
         d_ = {k: v for k, v in env.vars.items()}
@@ -595,7 +604,8 @@ def exec_for_invariant(engine, ctx, st: ast.For, env: Env, it, inv):
                   old=getattr(ctx, "entry_old", None),  # pre-state of the function (see symexec.make_old_view)
                   # materialised objects that the body hands to calls (receiver or argument), whatever the code calls them
                   touched=[env.vars[vn] for vn in names_in_calls(st.body)
-                           if isinstance(env.vars.get(vn), Obj) and env.vars[vn].fields is not None])
+                           if isinstance(env.vars.get(vn), Obj) and env.vars[vn].fields is not None],
+                  yielded=getattr(ctx, "ysym", None))  # symbolic sequence of the values yielded so far (generators)
         ns = NS(**d_)
         trig = getattr(inv, "triggers", None)
         if trig is not None:
@@ -629,11 +639,24 @@ def exec_for_invariant(engine, ctx, st: ast.For, env: Env, it, inv):
     for lab, c in class_inv_items():
         ctx.oblige("%s/inv-init#class.%s" % (label, lab), lift_bool(c), kind="inv-init")
     # havoc
-    kinds = getattr(inv, "kinds", None) or {}
+    kinds = dict(getattr(inv, "kinds", None) or {})
+    kinds_by_value = getattr(inv, "kinds_by_value", None)
+    if kinds_by_value is not None:
+        # kinds of in-place mutated collections chosen by what the variable holds, not by what the code calls it
+        for n_, v_ in list(env.vars.items()):
+            k_ = kinds_by_value(n_, v_) if n_ not in kinds else None
+            if k_ is not None:
+                kinds[n_] = k_
     # collections that the body mutates in place (x.add(...)) are loop-carried too: the invariant declares their kind
     modified = modified + [n for n in kinds if n in env.vars and n not in modified]
     for n in modified:
-        if n in kinds:
+        if n in kinds and getattr(inv, "in_place", False) and isinstance(env.vars[n], (SymSet, V.SymMap)) \
+                and not (isinstance(env.vars[n], SymSet) and env.vars[n].elem_sort != kinds[n].sort().domain()):
+            # collections that may be aliased (parameters): havocked in place so that every alias sees the new contents
+            from . import ext_reader
+
+            ext_reader.havoc_in_place(ctx, env.vars[n], n)
+        elif n in kinds:
             old_v = env.vars[n]
             env.vars[n] = ctx.fresh_kind(n, kinds[n])  # kind of a loop-carried variable declared by the invariant
             if hasattr(env.vars[n], "fresh"):
@@ -663,6 +686,12 @@ def exec_for_invariant(engine, ctx, st: ast.For, env: Env, it, inv):
     for vn in locally_mutated_containers(st.body):
         if vn not in kinds and isinstance(env.vars.get(vn), (PyList, PyDict)):
             env.vars[vn] = V.Opaque("container built in a loop over a symbolic domain")
+    if has_yield:
+        ctx.ysym.havoc()
+    if getattr(inv, "havoc_ghost_heap", False):
+        from . import ext_reader
+
+        ext_reader.heap_havoc(ctx, grows=False)  # what the invariant says about the ghost heap is all that is known
     i = ctx.fresh("iter", z3.IntSort())
     ctx.assume(i >= lo)
     which = ctx.choose(2)
